@@ -225,8 +225,11 @@ func level1Exhaustive(run *ev.Run) string {
 			}
 		}
 	}
-	for _, l := range lists {
+	for i, l := range lists {
 		run.Eval(1)
+		if i%9000 == 40 {
+			run.Sample("range-list(exhaustive)", showRs(l))
+		}
 		if len(l) >= 2 {
 			run.Nontrivial("F" + showRs(l))
 		}
